@@ -76,7 +76,7 @@ Fixpoint json_str_ok (v : pv) : bool :=
   end.
 Definition json_ok (v : pv) : bool := json_wf v && json_str_ok v.
 
-Definition cval_ok (x : cval) : bool := match x with CV v => json_ok v | CDt _ => true end.
+Definition cval_ok (x : cval) : bool := match x with CV v => json_ok v | CDt _ => true | CObj _ => false end.
 Definition claims_ok (c : claims) : bool :=
   keys_unique (dkeys c) && forallb (fun kv => str_ok (fst kv) && cval_ok (snd kv)) c.
 
@@ -87,4 +87,5 @@ Definition spec_claim (ks : list str) (k : str) (x : cval) : option pv :=
   | CDt t => if str_mem k ks
              then match numericdate t with Ok n => Some (PInt n) | Err _ => None end
              else None
+  | CObj _ => None
   end.
